@@ -45,6 +45,13 @@ void Sieve::set_sieve_size(unsigned size)
 #endif
 }
 
+#if defined(SYMENGINE_VERIF)
+void Sieve::verif_set_sieve_bits(unsigned bits)
+{
+    _sieve_size = bits;
+}
+#endif
+
 void Sieve::_extend(unsigned limit)
 {
     std::vector<unsigned> &_primes = sieve_primes();
